@@ -24,5 +24,12 @@ summary = ("%d seeded changes are kept. On the first run of the check as it stoo
 gen("seeded", summary + seeded)
 thm = subprocess.check_output(["/verif/tools/theoremtable.py"]).decode()
 gen("theorems", "| Prop. | lines of Coq | theorems in Properties*.v | Examples | `_partial` / `_refuted` | first theorems |\n|---|---|---|---|---|---|\n" + thm)
+import json, glob
+notes = []
+for f in sorted(glob.glob("/verif/checks/manifest/C*.json")):
+    m = json.load(open(f))
+    notes.append("* **%s** (%s). %s" % (m["property_id"], m["level_claimed"]["category"], m.get("level_note", "").strip()))
+if "<!-- GEN:notes -->" in s:
+    gen("notes", "\n".join(notes))
 open(p, "w").write(s)
 print("seeded:", n, "first caught", first_caught, "no-input", first_noinput, "missed", missed, "| final concrete", final_concrete, "still missed", still)
